@@ -250,6 +250,46 @@ def ta_pristine_findings(first, rec, same_config=True):
     return out
 
 
+def shares_to_milli(shares):
+    """pkg/kubernetes SharesToMilliCPU: MinShares (2) means no request"""
+    return 0 if shares == 2 else int(shares * 1000 / 1024 + 0.5)
+
+
+class Requests:
+    """the CPU request the runtime last gave for each container (cgroup shares of the CreateContainer /
+    UpdateContainer that was accepted): the request the policy works from must be its reconstruction"""
+    def __init__(self):
+        self.shares = {}
+
+    def step(self, ev, rec):
+        out = []
+        cache = {c['id']: c for c in rec['cache']}
+        if rec['reply']['class'] == 'ok' and rec['op'] in ('CreateContainer', 'UpdateContainer'):
+            cid = (ev.get('ctr') or {}).get('id')
+            res = (ev.get('res') if rec['op'] == 'UpdateContainer' else (ev.get('ctr') or {}).get('res')) or {}
+            c = cache.get(cid)
+            if res.get('shares') is not None and c and c['state'] in LIVE and not ev.get('nilres') and not res.get('nocpu'):
+                self.shares[cid] = res['shares']
+            elif rec['op'] == 'CreateContainer':
+                self.shares.pop(cid, None)
+        if rec['reply']['class'] != 'ok' and rec['op'] == 'UpdateContainer':
+            # a refused update: the container has lost its grant (known finding K3) and what the plugin
+            # believes about its request is no longer judged here
+            self.shares.pop((ev.get('ctr') or {}).get('id'), None)
+        if rec['op'] in ('Synchronize', 'Restart'):
+            self.shares = {}          # the listing carries the runtime's current resources: start over
+        for cid, sh in self.shares.items():
+            c = cache.get(cid)
+            pr = c and c.get('prefs')
+            if not pr or c['state'] not in LIVE or pr.get('in_qos') == 'BestEffort':
+                continue
+            want = shares_to_milli(sh)
+            if abs(pr['in_milli'] - want) > 1:
+                out.append(F('C03', 'grant-matches-request', 'request-differs-from-runtime-resources',
+                             'container %s: the runtime last gave cpu.shares %d (%dm), the policy works from a request of %dm' % (cid, sh, want, pr['in_milli']), rec['seq']))
+        return out
+
+
 class Retired:
     """instances the runtime has replaced: a CreateContainer for the same pod and container name with a new id
     means the old instance is dead (its StopContainer is merely late). From then on it must hold nothing."""
@@ -275,7 +315,7 @@ class Retired:
 
 # ---------------------------------------------------------------- runtime view (C05) and opt-outs (C12)
 
-FIELDS = ('cpus', 'mems', 'shares', 'quota', 'period', 'memlimit')
+FIELDS = ('cpus', 'mems', 'shares', 'quota', 'period', 'memlimit', 'swap')
 
 
 class RuntimeView:
@@ -380,7 +420,15 @@ def c05_findings(rv, ev, rec, prev_cache):
                 out.append(F('C05', 'view-eq-cache', 'cache-change-never-told:' + f,
                              '%s: container %s cache %s changed %r -> %r but was never told to the runtime' % (op, cid, f, pc[f], cv), seq))
         if c['pending']:
-            sig = 'pending-after-reply' if rep['class'] == 'ok' and op not in ('RunPodSandbox', 'StopPodSandbox', 'RemovePodSandbox', 'StartContainer', 'RemoveContainer', 'Restart') else 'pending-after-failed-or-nonflushing-request'
+            # an UpdateContainer naming a container that is not created/running (or unknown) is ignored by the
+            # handler before anything is flushed: it counts with the non-flushing requests
+            tgt = (ev.get('ctr') or {}).get('id')
+            ignored = op == 'UpdateContainer' and not any(x['id'] == tgt and x['state'] in LIVE for x in rec['cache'])
+            if op == 'Reconfigure' and rep['class'] != 'ok' and not rec.get('revert_failed'):
+                # a rejected update whose revert went through: the revert pushes every pending change
+                out.append(F('C05', 'nothing-pending', 'pending-after-reverted-reconfigure', 'Reconfigure rejected and reverted, but container %s still has pending changes' % cid, seq))
+                continue
+            sig = 'pending-after-reply' if rep['class'] == 'ok' and not ignored and op not in ('RunPodSandbox', 'StopPodSandbox', 'RemovePodSandbox', 'StartContainer', 'RemoveContainer', 'Restart') else 'pending-after-failed-or-nonflushing-request'
             out.append(F('C05', 'nothing-pending', sig, '%s (%s): container %s still has pending changes after the reply' % (op, rep['class'], cid), seq))
     return out
 
